@@ -80,11 +80,17 @@ def allocation(run, f):
         run.require(users == {hb.name}, "O11.1", "counter-private", "the id counter is referenced from %s" % sorted(users), "counter referenced only from %s" % hb.name)
         sd = [s for s in f.statics if s["def"] == static]
         run.require(len(sd) == 1 and "Atomic" in f.ty(sd[0]["ty"]).s and not sd[0]["mut"], "O11.1", "counter-is-atomic", "the id counter is not an immutable static atomic", "static %s: %s" % (static, f.ty(sd[0]["ty"]).s if sd else "?"))
-    # feeds the one ActorRef::new
+    # feeds the one ActorRef built from scratch (private constructors are inlined: the aggregate is in this body)
     tr = tracer_of(b)
-    news = [k for k in live_calls(b) if callee(k.term) == "actor_ref::ActorRef::<T>::new"]
-    okn = len(news) == 1 and strip_wrappers(tr.norm(tr.call_args(news[0].idx)[0])) == ("call", blk.idx, "Identity::new")
-    run.require(okn, "O11.1", "identity-into-actorref", "the allocated Identity is not the one given to ActorRef::new", "ActorRef::new(actor_id, ..)")
+    fresh = []
+    for bk in b.blocks:
+        for st in bk.stmts:
+            if st["k"] == "assign" and "agg" in st["rv"] and st["rv"].get("adt") == AR and "id" in st["rv"]["fields"]:
+                t = strip_wrappers(tr.norm(tr.operand(st["rv"]["ops"][st["rv"]["fields"].index("id")])))
+                if t == ("call", blk.idx, "Identity::new"):
+                    fresh.append(f.span(st["span"]).loc)
+    run.require(len(fresh) == 1, "O11.1", "identity-into-actorref", "the allocated Identity goes into %d ActorRef values built by the spawn function (expected one)" % len(fresh),
+                "ActorRef { id: the allocated Identity, .. } built once in the spawn function")
 
 
 def propagation(run, f):
@@ -101,6 +107,8 @@ def propagation(run, f):
                     src_adt = None
                     good = False
                     if t is not None:
+                        if t[0] == "call" and t[2] == "Identity::new" and rv["adt"] == AR:
+                            good = True         # the spawn function's fresh handle (uniqueness of that site: O11.1)
                         if t[0] == "param" and f.ty(bd.locals[t[1]]["ty"]).is_adt("Identity"):
                             good = True
                         elif t[0] == "field" and strip_refs(t[2])[0] == "param":
